@@ -246,30 +246,41 @@ fn generate(ctx: &Ctx) {
 
   // ---------------------------------------------------------------- (a1) key store
   // stateright's depth target counts the initial state as depth 1: target d+1 = every history of <= d operations
-  let mut jwk_run = |ctx: &Ctx, ops: Option<usize>, cap: u8, mode: Mode| {
+  let mut jwk_run = |ctx: &Ctx, ops: Option<usize>, cap: u8, mode: Mode, ext: bool| {
     part_no += 1;
     let bound = match ops {
       Some(n) => format!("histories of <= {n} operations (depth in fingerprint)"),
       None => "to closure".to_string(),
     };
-    let name = format!("(c/a1.{part_no}) StrongholdStorage as JwkStorage: {bound}, <= {cap} issued ids; {}", mode_name(mode));
+    let name = format!(
+      "(c/a1.{part_no}) StrongholdStorage as JwkStorage: {bound}, <= {cap} issued ids{}; {}",
+      if ext { ", extended op alphabet" } else { "" },
+      mode_name(mode)
+    );
     let t0 = ctx.elapsed_s();
-    let st = vx::sr::run(ctx, &name, ops.map(|n| n + 1), |col| KModel::<Sh>::new(cap, ops.is_some(), col, diverged.clone()).with_mode(mode));
+    let st = vx::sr::run(ctx, &name, ops.map(|n| n + 1), |col| KModel::<Sh>::new(cap, ops.is_some(), col, diverged.clone()).with_mode(mode).extended(ext));
     for i in 0..st.unique {
       ctx.distinct(&(part_no, i));
     }
     walls.insert(name, json!(((ctx.elapsed_s() - t0) * 10.0).round() / 10.0));
   };
+  // extended op alphabet of seq.rs (a superset of the basic one): same key material under other metadata,
+  // unregistered alg, the public part of a generated key, own public key under another / no kid, never-issued
+  // key ids derived from issued ones
   let ops = ctx.by_tier(2usize, 4usize);
-  jwk_run(ctx, Some(ops), 3, plain);
+  jwk_run(ctx, Some(ops), 3, plain, ctx.quick());
   if ctx.thorough() {
-    jwk_run(ctx, None, 2, plain);
+    jwk_run(ctx, Some(3), 3, plain, true);
+    jwk_run(ctx, None, 2, plain, false);
   }
   let ops_modes = ctx.by_tier(2usize, 3usize);
-  jwk_run(ctx, Some(ops_modes), 3, reopen_each);
-  jwk_run(ctx, Some(ops_modes), 3, side);
+  jwk_run(ctx, Some(ops_modes), 3, reopen_each, false);
+  jwk_run(ctx, Some(ops_modes), 3, side, false);
   ctx.require(!diverged.load(Ordering::Relaxed), "(c/a1) replaying a recorded history produced a different number of issued key ids");
-  ctx.bound("jwk_store_history_length", json!({"plain": ops, "reopen_after_every_operation": ops_modes, "with_key_id_mappings_present": ops_modes, "issued_ids_cap": 3}));
+  ctx.bound(
+    "jwk_store_history_length",
+    json!({"plain": ops, "plain_extended_op_alphabet": ctx.by_tier(2, 3), "reopen_after_every_operation": ops_modes, "with_key_id_mappings_present": ops_modes, "issued_ids_cap": 3}),
+  );
   if ctx.thorough() {
     ctx.bound("jwk_store_closure_run_issued_ids_cap", 2);
   }
